@@ -377,6 +377,11 @@ impl Engine {
                 CfgSection::Protocol { min_stake, oracle, channel, spell } => {
                     c.min_stake = *min_stake;
                     c.oracle = if *oracle && !self.force_no_oracle { Some(self.w.setup.oracle_addr.clone()) } else { None };
+                    if *spell >= 4 {
+                        // the legal all-upper-case spelling of the same oracle account
+                        c.oracle = c.oracle.map(|o| o.to_uppercase());
+                        self.stats.probe("oracle_configured_in_upper_case");
+                    }
                     if quiet {
                         c.channel = match spell % 4 {
                             2 => format!("channel-00{}", channel),
@@ -838,9 +843,10 @@ impl Engine {
         self.stats.txs += 1;
         self.note_panics();
         if r.ok && self.w.st.staking.map != pre {
-            // cannot be modelled; end the run quietly (only happens on broken trees)
+            // cannot be modelled, and no property names these malformed messages: the run is set aside
+            // (only happens on changed trees)
             self.stats.probe("hostile_exec_succeeded");
-            self.v("HARNESS", "hostile_exec_succeeded", format!("hostile message {} succeeded", msg));
+            self.v("SETASIDE", "hostile_exec_succeeded", format!("hostile message {} with funds {:?} succeeded", msg, funds));
         }
         self.last_tx = Some(r);
     }
